@@ -111,7 +111,7 @@ func (g *scopeGen) funcBody(head string) {
 }
 
 func (g *scopeGen) stat() {
-	k := g.r.Intn(24)
+	k := g.r.Intn(26)
 	if g.depth >= 4 && k >= 12 && k <= 20 {
 		k = g.r.Intn(10)
 	}
@@ -210,6 +210,19 @@ func (g *scopeGen) stat() {
 		g.line(g.gpool[g.r.Intn(3)] + " = " + g.exp(1))
 	case 22:
 		g.line("print(" + g.useName() + ", " + g.useName() + ")")
+	case 24:
+		// assignment through an index whose key is not a constant: prefix and key are uses
+		t, kx := g.useName(), g.useName()
+		if t == "print" {
+			t = "G1"
+		}
+		g.line(t + "[" + []string{kx, "#" + t + " + 1", kx + " + 1"}[g.r.Intn(3)] + "] = " + g.exp(1))
+	case 25:
+		t := g.useName()
+		if t == "print" {
+			t = "G1"
+		}
+		g.line(t + []string{".f", ".f.g", "[\"k\"]", "[1]"}[g.r.Intn(4)] + " = " + g.exp(1))
 	default:
 		g.line("local " + g.name() + ", " + g.name())
 	}
